@@ -19,14 +19,14 @@ NormScale == 1000
 NormCap   == 2000000
 ValueBound == 2           \* |entry| of every input array
 
-RunFields == {"rejected", "raised", "exact", "dense", "unf", "vec", "shape", "rank", "norm"}
+RunFields == {"rejected", "raised", "convert", "exact", "dense", "unf", "vec", "shape", "rank", "norm"}
 IsLoggedT(T) == /\ {"shape", "data"} \subseteq DOMAIN T
 TensOKs(ts) == \A k \in 1..Len(ts) : IsLoggedT(ts[k]) /\ IsTAny(ts[k])
 Bounded(T) == \A n \in 1..Len(T.data) : T.data[n] \in (-ValueBound)..ValueBound
 
 WellFormed(e) ==
     /\ {"id", "cfg", "in", "runs"} \subseteq DOMAIN e
-    /\ {"op", "fshapes", "wlen", "coreshape", "pshapes", "hasw"} \subseteq DOMAIN e.cfg
+    /\ {"op", "fshapes", "wlen", "coreshape", "pshapes", "hasw", "pden"} \subseteq DOMAIN e.cfg
     /\ e.cfg.op \in Kinds
     /\ "fs" \in DOMAIN e.in /\ TensOKs(e.in.fs) /\ \A k \in 1..Len(e.in.fs) : Bounded(e.in.fs[k])
     /\ (e.cfg.op \in {"cp", "p2"} =>
@@ -34,11 +34,12 @@ WellFormed(e) ==
             /\ \A r \in 1..Len(e.in.w) : e.in.w[r] \in (-ValueBound)..ValueBound)
     /\ (e.cfg.op = "cp" => "mask" \in DOMAIN e.in /\ IsLoggedT(e.in.mask) /\ IsTAny(e.in.mask) /\ Bounded(e.in.mask))
     /\ (e.cfg.op = "tucker" => "core" \in DOMAIN e.in /\ IsLoggedT(e.in.core) /\ IsTAny(e.in.core) /\ Bounded(e.in.core))
-    /\ (e.cfg.op = "p2" => "ps" \in DOMAIN e.in /\ TensOKs(e.in.ps) /\ \A k \in 1..Len(e.in.ps) : Bounded(e.in.ps[k]))
+    /\ (e.cfg.op = "p2" => /\ "ps" \in DOMAIN e.in /\ TensOKs(e.in.ps) /\ \A k \in 1..Len(e.in.ps) : Bounded(e.in.ps[k])
+                            /\ "pden" \in DOMAIN e.in /\ e.in.pden \in {1, 2})
     /\ DOMAIN e.runs # {}
     /\ \A k \in DOMAIN e.runs :
           /\ RunFields \subseteq DOMAIN e.runs[k]
-          /\ e.runs[k].rejected \in BOOLEAN /\ e.runs[k].raised \in BOOLEAN /\ e.runs[k].exact \in BOOLEAN
+          /\ e.runs[k].rejected \in BOOLEAN /\ e.runs[k].raised \in BOOLEAN /\ e.runs[k].exact \in BOOLEAN /\ e.runs[k].convert \in BOOLEAN
           /\ {"has", "fin0", "fin3", "q3", "q0"} \subseteq DOMAIN e.runs[k].norm
           /\ (e.cfg.op = "cp" => "masked" \in DOMAIN e.runs[k])
           /\ (e.cfg.op = "ttm" => "matrix" \in DOMAIN e.runs[k])
@@ -50,7 +51,7 @@ InDomain(e) ==
     /\ [k \in 1..Len(in.fs) |-> in.fs[k].shape] = c.fshapes
     /\ (c.op \in {"cp", "p2"} => in.hasw = c.hasw /\ Len(in.w) = c.wlen)
     /\ (c.op = "tucker" => in.core.shape = c.coreshape)
-    /\ (c.op = "p2" => [k \in 1..Len(in.ps) |-> in.ps[k].shape] = c.pshapes)
+    /\ (c.op = "p2" => [k \in 1..Len(in.ps) |-> in.ps[k].shape] = c.pshapes /\ in.pden = c.pden)
     /\ (c.op = "cp" /\ Valid("cp", in) => in.mask.shape = CPShape(in))
 
 SameT(a, T) == a.shape = T.shape /\ a.data = T.data
@@ -61,8 +62,13 @@ Verdict(e) ==
     ELSE
     LET kd == e.cfg.op  in == e.in  R == e.runs  keys == DOMAIN e.runs IN
     IF MustReject(kd, in)
-    THEN (IF \E k \in keys : ~R[k].rejected
-          THEN <<"InvalidAccepted", CHOOSE k \in keys : ~R[k].rejected>> ELSE <<"ok", "-">>)
+    THEN \* every entry point must refuse: the validator / wrapper constructor runs (reported first) and the
+         \* `convert` runs (all conversion functions of the format called on the raw tuple; rejected = all raised)
+         LET failing == {k \in keys : ~R[k].rejected}
+             prim    == {k \in failing : ~R[k].convert} IN
+         IF prim # {} THEN <<"InvalidAccepted", CHOOSE k \in prim : TRUE>>
+         ELSE IF failing # {} THEN <<"InvalidConverted", CHOOSE k \in failing : TRUE>>
+         ELSE <<"ok", "-">>
     ELSE IF ~Valid(kd, in) THEN <<"ok", "-">>     \* malformed in a way the property does not name: no obligation
     ELSE
     LET D  == Dense(kd, in)
